@@ -4,6 +4,7 @@ import (
 	"encoding/json"
 	"fmt"
 	"path/filepath"
+	"sort"
 	"strings"
 	"time"
 
@@ -77,7 +78,7 @@ func (c c11) sysCase(w *core.WCtx, cs *c11Sys) core.Result {
 	mustMkdir(dbdir)
 	sp := writeSession(dir, cs.Sess)
 	tr := ktrace.Run(ktrace.Options{Dir: dbdir, Argv: []string{binPath("vchild"), "run", dbdir, sp},
-		Fault: &ktrace.Fault{Classes: []string{"flusher", "compactor"}, K: cs.K, Errno: cs.Errno, Short: cs.Short}, HangAfter: 3 * time.Second})
+		Fault: &ktrace.Fault{Classes: []string{"flusher", "compactor"}, K: cs.K, Errno: cs.Errno, Short: cs.Short}, HangAfter: 10 * time.Second})
 	name := fmt.Sprintf("session %s [%s] fault k=%d errno=%d short=%v", cs.Name, sessStr(cs.Sess), cs.K, cs.Errno, cs.Short)
 	viol := func(sig, f string, a ...any) {
 		if len(r.Viol) < 4 {
@@ -140,6 +141,30 @@ func (c c11) sysCase(w *core.WCtx, cs *c11Sys) core.Result {
 			viol("", "after the injected failure of %s (%s) during a compaction Open fails: %s", what, outcome, d.OpenErr)
 		} else {
 			r.Extra["after the fault the next Open reports the broken table (accepted: reported, not absorbed)"]++
+			// look through the broken leftover: a flush that failed must not have been treated as done, i.e. the WAL
+			// of that memstore must still be there. Remove the table directory Open complains about (newest first)
+			// and recover again: now the acknowledged operations must all be readable.
+			rdir := filepath.Join(dir, "rec")
+			for attempt := 0; attempt < 3 && d.OpenErr != ""; attempt++ {
+				removeAll(rdir)
+				tr.Materialize(tr.Images[tr.FinalImage], rdir)
+				tabs, _ := filepath.Glob(filepath.Join(rdir, "sstable_0*"))
+				sort.Strings(tabs)
+				for i := 0; i <= attempt && i < len(tabs); i++ {
+					removeAll(tabs[len(tabs)-1-i])
+				}
+				d, exit, stderr, err = runRecover(rdir, crashKeys)
+				if err != nil || exit != 0 {
+					break
+				}
+			}
+			r.Evals++
+			if err == nil && exit == 0 && d.OpenErr == "" {
+				ok, wants := c02{"C02"}.acceptable(c02Case{Mode: "sync", Sess: cs.Sess}, final, dumpMap(d))
+				if !ok {
+					viol("", "after the injected failure of %s (%s; acked %v in flight %v) and removal of the broken table left behind, the directory recovers to %s, acceptable: %s - the failed flush was treated as done (its WAL is gone)", what, outcome, final.Acked, final.Inflight, mapStr(dumpMap(d)), strings.Join(wants, " or "))
+				}
+			}
 		}
 	default:
 		ok, wants := c02{"C02"}.acceptable(c02Case{Mode: "sync", Sess: cs.Sess}, final, dumpMap(d))
